@@ -20,6 +20,7 @@ import time
 ROOT = os.path.dirname(os.path.dirname(os.path.abspath(__file__)))
 PY = os.environ.get("VERIF_PYTHON", "/venv/bin/python")
 DEPS = os.path.join(ROOT, ".deps")
+HASHSEEDS = [0, 0, 1, 2, 3, 12345]
 
 
 def ensure_deps():
@@ -81,6 +82,9 @@ def run_batch(pid, stratum, seed, start, n, tier, scratch, env, batch_wall):
         attempts += 1
         outfile = os.path.join(scratch, f"{pid}-{stratum}-{start}-{pos}.jsonl")
         cmd = [PY, "-m", "vf.worker", pid, stratum, str(seed), str(pos), str(end - pos), tier, outfile]
+        # set/dict iteration order of str-keyed containers is part of the "schedule": batches run under different,
+        # but reproducible, hash seeds (recorded per case, used again by --replay)
+        env = dict(env, PYTHONHASHSEED=str(HASHSEEDS[(seed * 31 + start // max(1, n) + len(stratum)) % len(HASHSEEDS)]))
         err = ""
         try:
             r = subprocess.run(cmd, cwd=ROOT, env=env, capture_output=True, text=True, timeout=batch_wall)
@@ -224,6 +228,10 @@ def _run(pid, prop, tier, seed, replay, scale, only, scratch, t0):
 
     if replay:
         outfile = os.path.join(scratch, "replay.jsonl")
+        try:
+            env = dict(env, PYTHONHASHSEED=str(json.load(open(replay)).get("hashseed", "0")))
+        except Exception:
+            pass
         r = subprocess.run([PY, "-m", "vf.worker", pid, "--replay", replay, outfile], cwd=ROOT, env=env,
                            capture_output=True, text=True, timeout=3600)
         if not os.path.exists(outfile) or r.returncode != 0:
@@ -391,6 +399,7 @@ def fold(pid, prop, tier, seed, recs, infra, t0, partial=False):
                        "class": cls, "violations": r["o"]["violations"], "events": r["o"]["events"],
                        "mechanism_events": r["o"].get("mech", []), "case_repr": r.get("repr"),
                        "rust_profile": "debug" if r.get("tag") == "dev:" else "release",
+                       "hashseed": r.get("hs", "0"),
                        "case_pickle_b64": r.get("case")}, fh, indent=1)
         lines.append(f"VIOLATION property={pid} replay={path}")
         print(f"  class={cls} stratum={r.get('tag','')}{r['s']} index={r['i']}: {r['o']['violations'][0][1][:400]}")
